@@ -315,6 +315,7 @@ class HistoryExec:
             'fault_counts': sim.fault_counts,
             'probes': sim.probes,
             'n_trials': self.n_checked,
+            'sim_seconds': sim.clock.now() - 1_700_000_000.0,
         }
 
     def check_accounting(self, i, s, total, shots):
@@ -880,6 +881,7 @@ def absorb(summ, plan, o, seen):
     summ['runs'] += 1
     summ['states'].update(o['states'])
     summ['trials'] += o['n_trials']
+    summ['sim_seconds'] += o.get('sim_seconds', 0.0)
     if plan['kind'] == 'history':
         summ['histories'] += 1
         summ['ops'] += len(plan['ops'])
@@ -938,11 +940,12 @@ def determinism_plans(seed, n):
 def new_aggregate():
     return {'runs': 0, 'violations': [], 'states': set(), 'probes': {},
             'fault_counts': {}, 'trials': 0, 'samples': [], 'histories': 0,
-            'calibrations': 0, 'ops': 0}
+            'calibrations': 0, 'ops': 0, 'sim_seconds': 0.0}
 
 
 def aggregate(agg, r):
-    for k in ('runs', 'trials', 'histories', 'calibrations', 'ops'):
+    for k in ('runs', 'trials', 'histories', 'calibrations', 'ops',
+              'sim_seconds'):
         agg[k] += r[k]
     agg['calibration_sequences'] = agg.get('calibration_sequences', 0) + \
         r.get('calibration_sequences', 0)
@@ -1048,6 +1051,7 @@ def evidence(tier, agg, wall):
         'calibration_sequences_sharing_one_process': agg.get(
             'calibration_sequences', 0),
         'trials_checked_against_reference': agg['trials'],
+        'simulated_seconds_covered': round(agg['sim_seconds'], 1),
         'simulated_runs': agg['runs'],
         'simulated_runs_per_hour': int(agg['runs'] / max(wall, 1e-9) * 3600),
         'faults_fired': dict(sorted(agg['fault_counts'].items())),
